@@ -21,6 +21,9 @@ CHECKS = {
  'C04': dict(level='exploration', technique='property-based testing with a trace (history) oracle: world snapshot after every engine event of generated fork/join and requires programs under generated schedules',
    text='Every generated run is observed after each engine event; the oracle recomputes from the definition (reference guard evaluator, not the next_tasks column) which inbound instances completed and routed to each join before the event in which the join first became RUNNING, requires the join cardinality to be met at that point, at most one entry into RUNNING (snapshot diff and compare-and-swap log), one action execution and one task execution per join, ERROR instead of WAITING when the number can no longer be reached; for reverse workflows every task is created only after each required task is SUCCESS, only inside the target closure, once.',
    design='3 C04', note=ASSUME + '; known finding join-retrigger excluded by shape (counted) and re-created by a dedicated sub-check that prints KNOWN-FINDING'),
+ 'C03': dict(level='exploration', technique='stateful property-based testing: generated histories interleaving engine events with operator commands at drawn points; invariants over the compare-and-swap log and committed rows after every step (Hypothesis)',
+   text='Generated histories: a generated program (direct, nested sub-workflows, with-items, asynchronous actions) runs under a drawn schedule while a drawn plan of operator commands (pause, resume, stop with each state, rerun with reset on/off, skip, external action updates to every supported state, late and duplicate results, revival of finished actions) is issued through the engine RPC client at drawn steps and after quiescence. After every step the committed rows and the log of every compare-and-swap state change are checked against the transition table of the property text: only the listed workflow moves (ERROR/CANCELLED->RUNNING only inside a rerun/skip command on that execution tree), SUCCESS tasks never change, each action accepts one result, finished workflows keep state and output, no undeclared exception in engine events.',
+   design='3 C03', note=ASSUME + '; commands mirror the REST-side guards; known finding join-retrigger (a SUCCESS join reset by Task.defer) is classified by shape and re-created by a sub-check'),
 }
 NA = []
 def main():
